@@ -48,6 +48,7 @@ func randCase(r *Rng, s string) string {
 
 func runC17(c *Ctx) {
 	r := c.R
+	var hq []hashQuery
 	c.Res.Rule = "DNSKEY RDATA (all flag/protocol/algorithm values, key octets 0..4200 incl. carry-heavy ones), DS digest types, names x salts x iterations, NSEC3 interval shapes x hash positions built arithmetically around H(name), validity triples around the boundaries, key export/import for the supported algorithms; distinct by content"
 	// 1. key tags
 	n := c.Scale(4000, 100000)
@@ -128,6 +129,9 @@ func runC17(c *Ctx) {
 					got = strings.ToLower(ds.Digest)
 				}
 				c.Pred("ds", "ds-digest", in, ds != nil && got == want && ds.KeyTag == k.KeyTag() && ds.Algorithm == k.Algorithm && ds.DigestType == dt, got, want, true)
+				if isASCII(k.Hdr.Name) {
+					hq = append(hq, hashQuery{op: "ds.input " + hxs(k.Hdr.Name) + " " + hx(rd), dt: int(dt), lib: got, in: in})
+				}
 			}
 		}
 	}
@@ -149,7 +153,11 @@ func runC17(c *Ctx) {
 		c.Pred("nsec3hash", "hashname-vs-rfc", in, strings.EqualFold(got, want), got, want, true)
 		got2 := dns.HashName(asciiLower(name), dns.SHA1, uint16(iter), strings.ToUpper(saltS))
 		c.Pred("nsec3hash", "hashname-case-invariant", in, got2 == got, got2, got, true)
+		hq = append(hq, hashQuery{op: "nsec3.input " + hxs(name) + " " + hx(salt), dt: -1, iter: iter, salt: salt, lib: strings.ToLower(got), in: in})
 	}
+	// the octets the model says are hashed (dsInput / nsec3Input, theorems ds_input_canonical / hashName_rfc), hashed here
+	// with the standard library, must give the library's digest / NSEC3 hash
+	runHashQueries(c, hq)
 	// 3. match / cover: interval shapes x positions
 	n = c.Scale(3000, 60000)
 	one := big.NewInt(1)
@@ -380,4 +388,68 @@ func abs64(x int64) int64 {
 		return -x
 	}
 	return x
+}
+
+
+type hashQuery struct {
+	op   string
+	dt   int // DS digest type, or -1: NSEC3 hash
+	iter int
+	salt []byte
+	lib  string
+	in   string
+}
+
+func isASCII(s string) bool {
+	for i := 0; i < len(s); i++ {
+		if s[i] >= 0x80 {
+			return false
+		}
+	}
+	return true
+}
+
+func runHashQueries(c *Ctx, qs []hashQuery) {
+	if len(qs) == 0 {
+		return
+	}
+	ops := make([]string, len(qs))
+	for i, q := range qs {
+		ops[i] = q.op
+	}
+	outs, err := RunDriver(ops)
+	if err != nil || len(outs) != len(ops) {
+		c.Pred("hash-input", "hash-input-model-ran", fmt.Sprint(len(qs), " queries"), false, fmt.Sprint(err), "one line per query", true)
+		return
+	}
+	c.Res.ModelOps += len(ops)
+	for i, q := range qs {
+		want := ""
+		if outs[i] != "err" && outs[i] != "bad-op" {
+			b := unhx(outs[i])
+			switch q.dt {
+			case 1:
+				h := sha1.Sum(b)
+				want = hex.EncodeToString(h[:])
+			case 2:
+				h := sha256.Sum256(b)
+				want = hex.EncodeToString(h[:])
+			case 4:
+				h := sha512.Sum384(b)
+				want = hex.EncodeToString(h[:])
+			case -1:
+				h := sha1.Sum(b)
+				cur := h[:]
+				for k := 0; k < q.iter; k++ {
+					n := sha1.Sum(append(append([]byte{}, cur...), q.salt...))
+					cur = n[:]
+				}
+				want = strings.ToLower(b32hex.EncodeToString(cur))
+			}
+		}
+		c.count(q.op+" => "+q.lib, true)
+		if want != q.lib {
+			c.addViol(Violation{Key: "corr:hash-input", Kind: "correspondence", Stream: "hash-input", Op: q.op, Impl: q.lib, Model: want + " (hash of " + cut(outs[i], 120) + ")", Note: q.in})
+		}
+	}
 }
